@@ -117,3 +117,35 @@ fn c16_direct_canary() {
     std::mem::forget((images, r));
     assert!(b == file[0], "canary: must be reported as failing");
 }
+
+// ------------------------------------------------------------------ C05.blp.2 parse_dxtn on a hostile header
+/// every width / height / mipmap flag a 148-byte BLP2 header can carry (sides are NOT limited to the 65535 the
+/// encoder accepts), every locator offset: parse_dxtn returns a value or an error - no index beyond the
+/// 16-entry locator, no arithmetic overflow in the block count - and never more than 16 levels
+fn dxtn_hostile(f: DxtnFormat) {
+    let file: [u8; 16] = kani::any();
+    let w: u32 = kani::any();
+    let h: u32 = kani::any();
+    // libm log2 is modelled for sides below 2^31 (see log2_model)
+    kani::assume(w < 0x8000_0000 && h < 0x8000_0000);
+    let off: u32 = kani::any();
+    let offsets = [off; 16];
+    let sizes = [0u32; 16];
+    let hd = dxt_header(w, h, AlphaType::None, kani::any(), offsets, sizes);
+    let mut images = Vec::new();
+    let r = super::blp2::parse_dxtn(&hd, f, &file, &offsets, &sizes, &mut images, &[]);
+    kani::cover!(r.is_ok() && images.len() == 16, "full 16-level chain");
+    kani::cover!(r.is_err());
+    assert!(images.len() <= 16, "more levels than the mipmap locator has entries");
+    std::mem::forget((images, r));
+}
+#[kani::proof]
+#[kani::stub(::std::fmt::format, vio::fmt_stub)]
+#[kani::stub(f32::log2, crate::parser::verif_kani_parser::log2_model)]
+#[kani::unwind(20)]
+fn c05_blp_parse_dxt1_hostile_header() { dxtn_hostile(DxtnFormat::Dxt1) }
+#[kani::proof]
+#[kani::stub(::std::fmt::format, vio::fmt_stub)]
+#[kani::stub(f32::log2, crate::parser::verif_kani_parser::log2_model)]
+#[kani::unwind(20)]
+fn c05_blp_parse_dxt5_hostile_header() { dxtn_hostile(DxtnFormat::Dxt5) }
